@@ -33,17 +33,51 @@ static bool try_decode(const uint8_t *src, size_t n, const Bytes *dict, Bytes &o
     out.resize(rv); return true;
 }
 
+// a slice of the bad chunk's decoding that cannot have come from anywhere else in the content
+static bool only_from_bad(const Bytes &D, size_t bad_start, size_t bad_len, bool bad_is_dict, const Bytes &orig_plain, const Bytes &corrupt_plain, const char *p, size_t n) {
+    if (n == 0) return false;
+    if (!contains(orig_plain, p, n) && !contains(corrupt_plain, p, n)) return false;
+    // the same bytes also occur outside the bad chunk: returning them proves nothing
+    if (bad_is_dict) return !contains(D, p, n);
+    Bytes before(D.begin(), D.begin() + std::min(bad_start, D.size()));
+    Bytes after(D.begin() + std::min(bad_start + bad_len, D.size()), D.end());
+    return !contains(before, p, n) && !contains(after, p, n);
+}
+
+// History on the context before the first read (the property quantifies over histories):
+//   0 none; 1 zck_find_matching_chunks(good copy, this) first (marks the chunk "valid" because an
+//   equal digest exists elsewhere); 2/3 the context is opened on the intact file, a validity scan
+//   (zck_validate_checksums / zck_find_valid_chunks) succeeds, THEN the stored byte is damaged in
+//   place; the read that follows must still verify the bytes it actually decodes.
+// After the first error: 0 keep reading; 1 zck_clear_error() then keep reading with the same
+//   sizes; 2 zck_clear_error() then small reads (<= chunk).
+struct Hist { int pre = 0; int post = 0; };
+
 // returns "" or failure text
-static std::string run_one(const Bytes &file, const Bytes &D, size_t bad_start, size_t bad_len, const Bytes &orig_plain, const Bytes &corrupt_plain,
-                           const std::vector<size_t> &sizes, std::string *sig, bool *saw_error) {
-    int fd = lib::mkfd(file); zckCtx *z = zck_create(); std::string out;
+static std::string run_one(const Bytes &file, const Bytes &good, size_t flip_off, const Bytes &D, size_t bad_start, size_t bad_len, bool bad_is_dict, const Bytes &orig_plain, const Bytes &corrupt_plain,
+                           const std::vector<size_t> &sizes, const Hist &hs, std::string *sig, bool *saw_error) {
+    bool late_damage = (hs.pre == 2 || hs.pre == 3) && flip_off != (size_t)-1;
+    int fd = lib::mkfd(late_damage ? good : file); zckCtx *z = zck_create(); std::string out;
     if (!zck_init_read(z, fd)) { zck_free(&z); close(fd); *saw_error = true; return out; }   // refusing to open is a clean error
+    zckCtx *src = nullptr; int sfd = -1;
+    if (hs.pre == 1) {
+        sfd = lib::mkfd(good); src = zck_create();
+        if (zck_init_read(src, sfd)) zck_find_matching_chunks(src, z);
+        zck_clear_error(z);
+    } else if (late_damage) {
+        int v = hs.pre == 2 ? zck_validate_checksums(z) : (int)zck_find_valid_chunks(z);
+        if (v != 1) { *sig = "intact-file-not-valid"; out = "validity scan of the intact file returned " + std::to_string(v); }
+        uint8_t b = file[flip_off];
+        if (pwrite(fd, &b, 1, flip_off) != 1) abort();
+    }
     Bytes got; std::vector<char> buf; size_t k = 0; bool errored = false; int after = 0;
-    for (int guard = 0; guard < 200000; guard++) {
-        size_t n = sizes[k++ % sizes.size()]; if (buf.size() < n) buf.resize(n);
+    for (int guard = 0; out.empty() && guard < 200000; guard++) {
+        size_t n = sizes[k++ % sizes.size()];
+        if (errored && hs.post == 2) n = 1 + (n + after * 7) % std::max<size_t>(1, bad_len);
+        if (buf.size() < n) buf.resize(n);
         ssize_t r = zck_read(z, buf.data(), n);
         if (!errored) {
-            if (r < 0) { errored = true; continue; }
+            if (r < 0) { errored = true; if (hs.post) zck_clear_error(z); continue; }
             if (r == 0) break;
             got.insert(got.end(), buf.data(), buf.data() + r);
             if (got.size() > bad_start) {
@@ -52,15 +86,16 @@ static std::string run_one(const Bytes &file, const Bytes &D, size_t bad_start, 
                 break;
             }
         } else {
-            if (++after > 4) break;
-            if (r >= 4 && (contains(orig_plain, buf.data(), r) || contains(corrupt_plain, buf.data(), r))) {
-                *sig = "released-after-error"; out = "a read after the error returned " + std::to_string(r) + " bytes of the bad chunk's data"; break;
+            if (++after > 6) break;
+            if (r < 0 && hs.post) zck_clear_error(z);
+            if (r >= 1 && only_from_bad(D, bad_start, bad_len, bad_is_dict, orig_plain, corrupt_plain, buf.data(), r) && (r >= 4 || bad_len < 4)) {
+                *sig = "released-after-error"; out = "read #" + std::to_string(after) + " after the error" + (hs.post ? " (error cleared with zck_clear_error)" : "") + " returned " + std::to_string(r) + " bytes of the bad chunk's data"; break;
             }
         }
     }
     if (out.empty() && !got.empty() && (got.size() > D.size() || memcmp(got.data(), D.data(), got.size()) != 0)) { *sig = "prefix-wrong"; out = "bytes returned before the error are not a prefix of the original content"; }
-    (void)bad_len;
     *saw_error = errored;
+    if (src) zck_free(&src); if (sfd >= 0) close(sfd);
     zck_free(&z); close(fd);
     return out;
 }
@@ -88,7 +123,11 @@ static void prop(Ctx &c) {
         }
     }
     bool small_read = false; for (auto s : sizes) if (s < plen) small_read = true;
-    c.desc << z.desc << " bad-chunk=" << bad << (bad == 0 ? "(dict)" : bad == n - 1 ? "(last)" : bad == 1 ? "(first)" : "(middle)") << " reads=" << gen::sizes_str(sizes);
+    Hist hs; { uint64_t a = c.draw(5); hs.pre = a <= 2 ? 0 : (int)a - 2; hs.post = (int)c.draw(2); }
+    if (bad == 0 && hs.pre >= 2) hs.pre = 1;   // the dictionary is decoded once, at open: damaging it afterwards is not "reading a chunk whose stored bytes do not match"
+    static const char *pren[] = {"none", "match-against-good-copy", "validate_checksums-then-damage", "find_valid_chunks-then-damage"}, *postn[] = {"keep-reading", "clear_error+reads", "clear_error+small-reads"};
+    c.desc << z.desc << " bad-chunk=" << bad << (bad == 0 ? "(dict)" : bad == n - 1 ? "(last)" : bad == 1 ? "(first)" : "(middle)") << " reads=" << gen::sizes_str(sizes) << " before=" << pren[hs.pre] << " after-error=" << postn[hs.post];
+    c.label(std::string("pre=") + pren[hs.pre]); c.label(std::string("post=") + postn[hs.post]);
     c.label(bad == 0 ? "bad=dict" : bad == n - 1 ? "bad=last" : bad == 1 ? "bad=first" : "bad=middle"); if (small_read) c.label("read<chunk");
     // when the dictionary is the bad chunk nothing at all may be released
     size_t bad_start = bad == 0 ? 0 : plain_start;
@@ -101,7 +140,7 @@ static void prop(Ctx &c) {
         Bytes cp; std::string why;
         bool dec = try_decode(f.data() + off, cl, bad == 0 ? nullptr : &dictb, cp);
         evals++; if (dec) decodes++; if (dec && small_read) nontriv++;
-        std::string e = run_one(f, z.D, bad_start, plen, z.plain[bad], cp, sizes, &sig, &saw_error);
+        std::string e = run_one(f, z.file, off + byte, z.D, bad_start, plen, bad == 0, z.plain[bad], cp, sizes, hs, &sig, &saw_error);
         if (!e.empty()) { c.extra_evals = evals; c.fail(sig, e + " [flip byte " + std::to_string(byte) + " bit " + std::to_string(bit) + " of chunk " + std::to_string(bad) + (dec ? ", still decodes" : ", does not decode") + "]"); }
         if (!saw_error) { c.extra_evals = evals; c.fail("no-error", "every read succeeded although chunk " + std::to_string(bad) + " does not match its checksum [flip byte " + std::to_string(byte) + " bit " + std::to_string(bit) + "]"); }
         f[off + byte] ^= (uint8_t)(1u << bit);
@@ -112,7 +151,7 @@ static void prop(Ctx &c) {
         Bytes hdr = ref::emit_header(h2); Bytes g = hdr; g.insert(g.end(), z.file.begin() + z.h.total_size, z.file.end());
         if (hdr.size() == z.h.total_size) {
             evals++; if (small_read) nontriv++;
-            std::string e = run_one(g, z.D, bad_start, plen, z.plain[bad], z.plain[bad], sizes, &sig, &saw_error);
+            std::string e = run_one(g, z.file, (size_t)-1, z.D, bad_start, plen, bad == 0, z.plain[bad], z.plain[bad], sizes, hs, &sig, &saw_error);
             if (!e.empty()) { c.extra_evals = evals; c.fail(sig, e + " [index digest of chunk " + std::to_string(bad) + " altered, header re-sealed]"); }
             if (!saw_error) { c.extra_evals = evals; c.fail("no-error", "every read succeeded although the index digest of chunk " + std::to_string(bad) + " was altered"); }
             c.label("digest-variant");
